@@ -220,6 +220,9 @@ for _p in sorted(glob.glob(os.path.join(os.path.dirname(os.path.abspath(__file__
 
 
 
+RUN_ID = os.getpid()
+
+
 def make_snapshot():
     """Frozen copy of the checker, so that editing /verif/sa while a long run is in progress
     does not mix versions.  Removed by the caller."""
@@ -240,9 +243,9 @@ def sh(cmd, cwd=None, env=None, timeout=900):
 
 def run_variant(args):
     i, name = args
-    wt = "/tmp/benignwt_%d" % i
+    wt = "/tmp/benignwt_%d_%d" % (RUN_ID, i)
     props = [c["property_id"] for c in json.load(open("/verif/MANIFEST.json"))["checks"]]
-    env = dict(os.environ, SA_EVIDENCE_DIR="/tmp/benign_ev_%d" % i)
+    env = dict(os.environ, SA_EVIDENCE_DIR="/tmp/benign_ev_%d_%d" % (RUN_ID, i))
     if not os.path.isdir(wt):
         rc, out = sh("git -C /repo worktree add -q --detach %s HEAD" % wt)
         assert rc == 0, out
@@ -288,8 +291,8 @@ def main():
                 if alarms:
                     bad += 1
     for i in range(nw):
-        sh("git -C /repo worktree remove --force /tmp/benignwt_%d" % i)
-        sh("rm -rf /tmp/benign_ev_%d" % i)
+        sh("git -C /repo worktree remove --force /tmp/benignwt_%d_%d" % (RUN_ID, i))
+        sh("rm -rf /tmp/benign_ev_%d_%d" % (RUN_ID, i))
     sh("rm -rf %s" % snap)
     print("variants with alarms or failing tests:", bad, "of", len(names))
     return 1 if bad else 0
